@@ -173,6 +173,29 @@ func (c *Conn) Send(wantReply bool, payload []byte) ([]byte, error) {
 	return resData, nil
 }
 
+// sendContext is Send, abandoned when ctx is done: ssh requests cannot be cancelled, so the
+// request stays in flight until the peer answers or the connection closes.
+func (c *Conn) sendContext(ctx context.Context, wantReply bool, payload []byte) ([]byte, error) {
+	if err := ctx.Err(); err != nil {
+		return nil, err
+	}
+	type result struct {
+		data []byte
+		err  error
+	}
+	done := make(chan result, 1)
+	go func() {
+		data, err := c.Send(wantReply, payload)
+		done <- result{data, err}
+	}()
+	select {
+	case <-ctx.Done():
+		return nil, ctx.Err()
+	case r := <-done:
+		return r.data, r.err
+	}
+}
+
 func (c *Conn) RemoteAddr() Addr {
 	return c.remoteAddr
 }
